@@ -25,6 +25,12 @@ import (
 
 var mods []*modules.Module
 
+// limitBeforeStart is the microtask limit configured before modules.Start(); thresholdAfterStart is what is in force
+// right after Start returned.
+const limitBeforeStart = 3
+
+var thresholdAfterStart int32
+
 var (
 	limitCases     int64
 	saturatedCases int64
@@ -39,10 +45,13 @@ func TestMain(m *testing.M) {
 		mods = append(mods, modules.Register(n, nil, nil, nil))
 	}
 	modules.VerifHook = hook
+	// the limit is configured before the module system is started, as a program does it: Start has to leave it alone
+	modules.SetMaxConcurrentMicroTasks(limitBeforeStart)
 	if err := modules.Start(); err != nil {
 		fmt.Fprintln(os.Stderr, "C15 set-up: modules.Start:", err)
 		os.Exit(2)
 	}
+	_, thresholdAfterStart, _, _ = modules.VerifMicroTaskState()
 	code := m.Run()
 	if lc := atomic.LoadInt64(&limitCases); lc >= 20 {
 		if sat := atomic.LoadInt64(&saturatedCases); sat*100 < lc*30 {
@@ -640,4 +649,13 @@ func queueFullLimitCase(t *rapid.T) {
 		time.Sleep(200 * time.Microsecond)
 	}
 	stats.Case(fmt.Sprintf("queuefull-limit %d %d %s %d", limit, extra, prio, pauseUS), true, "clearance_queue_overflow_limit_held_"+prio)
+}
+
+// TestRegLimitConfiguredBeforeStart: "at most the configured number ... execute at the same time" - the number
+// configured before the module system was started. TestMain configures 3 before modules.Start() and reads what the
+// scheduler works with right after Start.
+func TestRegLimitConfiguredBeforeStart(t *testing.T) {
+	if thresholdAfterStart != limitBeforeStart {
+		t.Fatalf("C15-1-limit: the limit was set to %d before modules.Start(); after Start the scheduler works with %d", limitBeforeStart, thresholdAfterStart)
+	}
 }
